@@ -22,6 +22,9 @@ type BlockSpec struct {
 	Kind    string `json:"kind"`
 	Height  uint32 `json:"height"`
 	TxCount uint32 `json:"txcount"`
+	// HdrSeed != 0: the 80-byte header comes from this seed, so that two specs can share a header (= the same
+	// block hash) and differ in everything else
+	HdrSeed uint64 `json:"hdr_seed,omitempty"`
 }
 
 type OpRec struct {
@@ -109,6 +112,9 @@ func (s BlockSpec) Data() []byte {
 		hl = s.Len
 	}
 	copy(b, g.Bytes(hl))
+	if s.HdrSeed != 0 {
+		copy(b, vlib.NewRng(s.HdrSeed).Bytes(hl))
+	}
 	if s.Len > 80 {
 		genBody(g, b[80:], s.Kind)
 	}
@@ -166,6 +172,8 @@ func genHistory(g *vlib.Rng, name string, big bool) *History {
 	nops := 8 + g.Intn(50)
 	trusted := map[int]bool{}
 	tainted := map[int]bool{}
+	queued := map[int]bool{}   // added and no flush point (idle / close) since: generated histories stay below the thresholds
+	removed := map[int]bool{}  // marked invalid while queued: the store forgets the block, the same hash may be stored again
 	added := []int{}
 	open := true
 	newBlock := func() int {
@@ -195,14 +203,34 @@ func genHistory(g *vlib.Rng, name string, big bool) *History {
 		switch x := g.Intn(100); {
 		case x < 34:
 			b := -1
-			if len(added) > 0 && g.Chance(1, 5) {
+			var rem []int
+			for _, a := range added {
+				if removed[a] {
+					rem = append(rem, a)
+				}
+			}
+			if len(rem) > 0 && g.Chance(1, 2) {
+				// the hash of a block that was marked invalid while queued is stored again, with other bytes / height / txcount
+				old := rem[g.Intn(len(rem))]
+				removed[old] = false
+				hs := h.Blocks[old].HdrSeed
+				if hs == 0 {
+					hs = h.Blocks[old].Seed | 1
+					h.Blocks[old].HdrSeed = hs
+				}
+				b = newBlock()
+				h.Blocks[b].HdrSeed = hs
+				added = append(added, b)
+				queued[b] = true
+			} else if len(added) > 0 && g.Chance(1, 5) {
 				b = added[g.Intn(len(added))]
 			} else {
 				b = newBlock()
 				added = append(added, b)
+				queued[b] = true
 			}
 			t := g.Chance(1, 4)
-			if t && !tainted[b] {
+			if t {
 				trusted[b] = true
 			}
 			h.Ops = append(h.Ops, OpRec{Op: "add", B: b, Flag: t})
@@ -218,19 +246,25 @@ func genHistory(g *vlib.Rng, name string, big bool) *History {
 			h.Ops = append(h.Ops, OpRec{Op: "trusted", B: b})
 		case x < 82:
 			b := pick()
-			// BlockInvalid on a trusted (or already invalidated and written) block panics with db.mutex held:
-			// generated on purpose only rarely, and it ends the history
-			if b >= 0 && (trusted[b] || tainted[b]) && !g.Chance(1, 15) {
+			// BlockInvalid on a trusted block panics with db.mutex held: generated on purpose only rarely, and it
+			// ends the history. A second BlockInvalid of the same block is an ordinary operation.
+			if b >= 0 && trusted[b] && !g.Chance(1, 15) {
 				continue
 			}
 			h.Ops = append(h.Ops, OpRec{Op: "invalid", B: b})
-			if b >= 0 {
+			if b >= 0 && !trusted[b] {
 				tainted[b] = true
+				if queued[b] {
+					removed[b] = true
+					queued[b] = false
+				}
 			}
 		case x < 91:
 			h.Ops = append(h.Ops, OpRec{Op: "idle"})
+			queued = map[int]bool{}
 		default:
 			h.Ops = append(h.Ops, OpRec{Op: "close"})
+			queued = map[int]bool{}
 			open = false
 		}
 	}
